@@ -118,6 +118,7 @@ func NewTarget(targetURL string, options TargetOptions) (*Target, error) {
 	}
 
 	target.proxyHandler = target.createProxyHandler()
+	verifTargetCreated(target)
 
 	if options.BufferResponses {
 		target.proxyHandler = WithResponseBufferMiddleware(options.MaxMemoryBufferSize, options.MaxResponseBodySize, target.proxyHandler)
@@ -149,6 +150,7 @@ func (t *Target) StartRequest(req *http.Request) (*http.Request, error) {
 	defer t.inflightLock.Unlock()
 
 	if t.state == TargetStateDraining {
+		verifEvent("claim-refused", t, req)
 		return nil, ErrorDraining
 	}
 
@@ -157,6 +159,7 @@ func (t *Target) StartRequest(req *http.Request) (*http.Request, error) {
 
 	inflightRequest := &inflightRequest{cancel: cancel}
 	t.inflight[req] = inflightRequest
+	verifEvent("claim", t, req)
 
 	return req, nil
 }
@@ -168,6 +171,7 @@ func (t *Target) SendRequest(w http.ResponseWriter, req *http.Request) {
 
 	inflightRequest := t.getInflightRequest(req)
 	defer t.endInflightRequest(req)
+	verifYield("req:claimed", req)
 
 	tw := newTargetResponseWriter(w, inflightRequest)
 	t.proxyHandler.ServeHTTP(tw, req)
@@ -182,6 +186,7 @@ func (t *Target) Drain(timeout time.Duration) {
 
 	deadline := time.After(timeout)
 	toCancel := t.pendingRequestsToCancel()
+	verifYield("drain:marked", t)
 
 	// Cancel any hijacked requests immediately, as they may be long-running.
 	for _, inflight := range toCancel {
@@ -195,10 +200,12 @@ WAIT_FOR_REQUESTS_TO_COMPLETE:
 		select {
 		case <-req.Context().Done():
 		case <-deadline:
+			verifEvent("drain-deadline", t)
 			break WAIT_FOR_REQUESTS_TO_COMPLETE
 		}
 	}
 
+	verifEvent("drain-cancel-rest", t)
 	// Cancel any remaining requests.
 	for _, inflight := range toCancel {
 		inflight.cancel(ErrorDraining)
@@ -219,6 +226,7 @@ func (t *Target) BeginHealthChecks(stateConsumer TargetStateConsumer) {
 func (t *Target) stopHealthChecks() {
 	if t.healthcheck != nil {
 		t.healthcheck.Close()
+		verifEvent("probe-stop", t)
 		t.healthcheck = nil
 	}
 }
@@ -226,10 +234,12 @@ func (t *Target) stopHealthChecks() {
 func (t *Target) WaitUntilHealthy(timeout time.Duration) bool {
 	select {
 	case <-time.After(timeout):
+		verifEvent("waiter", t, false)
 		t.stopHealthChecks()
 		return false
 
 	case <-t.becameHealthy:
+		verifEvent("waiter", t, true)
 		return true
 	}
 }
@@ -258,7 +268,9 @@ func (t *Target) HealthCheckCompleted(success bool) {
 			}
 		}
 		newState = t.state
+		verifEvent("probe-apply", t, success, int(previousState), int(newState))
 	})
+	verifYield("probe:applied", t)
 
 	if newState != previousState {
 		slog.Info("Target health updated", "target", t.Target(), "state", newState.String(), "was", previousState.String())
@@ -400,6 +412,7 @@ func (t *Target) updateState(state TargetState) TargetState {
 
 	originalState := t.state
 	t.state = state
+	verifEvent("state-set", t, int(originalState), int(state))
 
 	return originalState
 }
@@ -419,6 +432,7 @@ func (t *Target) endInflightRequest(req *http.Request) {
 	if ok {
 		inflightRequest.cancel(nil)
 		delete(t.inflight, req)
+		verifEvent("end", t, req)
 	}
 }
 
@@ -433,6 +447,7 @@ func (t *Target) pendingRequestsToCancel() inflightMap {
 	for k, v := range t.inflight {
 		result[k] = v
 	}
+	verifEvent("drain-snapshot", t, result)
 
 	return result
 }
@@ -469,6 +484,7 @@ func (r *targetResponseWriter) Hijack() (net.Conn, *bufio.ReadWriter, error) {
 	}
 
 	r.inflightRequest.hijacked = true
+	verifEvent("hijacked", r.inflightRequest)
 	return hijacker.Hijack()
 }
 
